@@ -97,16 +97,39 @@ def run(ck):
         # no path hands the message to the transport without having written its Content-Length (whatever the status code, headers or
         # body size): the body that follows the blank line would be unframed
         unframed = []
-
+        # state: (Content-Length written?, (helper, what it returned) of the last bool piece walked through)
         def fstep(st, ev):
+            seen, last = st
             c_ = comp_of(ev)
             if c_ == "content-length":
-                return 1
-            if c_ == "asyncWrite" and st == 0:
+                return (1, last)
+            if c_ == "asyncWrite" and seen == 0:
                 unframed.append(ev)
                 return None
             return st
-        cfg.run_automaton(f0, 0, lib.inlined_step(prog, fstep, lambda g_: w_expand(g_) and g_.id != f0.id))
+
+        def fret(st, ex, g_):
+            rv = ex.event.get("const") if ex.event is not None and ex.kind == "return" else None
+            return (st[0], (g_.base, rv) if isinstance(rv, bool) else None)
+        redges = {}
+
+        def fedge(st, blk, k, succ):
+            seen, last = st
+            if last is not None:
+                # the caller's test of that helper's result: only the edge that agrees with what the helper returned is feasible
+                fn_ = blk_owner.get(id(blk))
+                if fn_ is not None:
+                    key_ = (fn_.id, last[0])
+                    if key_ not in redges:
+                        redges[key_] = (set(lib.result_edges(fn_, last[0], True)), set(lib.result_edges(fn_, last[0], False)))
+                    t_e, f_e = redges[key_]
+                    if (blk.id, k) in (f_e if last[1] else t_e):
+                        return None
+                    if (blk.id, k) in t_e or (blk.id, k) in f_e:
+                        return (seen, None)
+            return st
+        blk_owner = {id(b_): g_ for g_ in [f0] + [h_ for h_ in lib.region(prog, f0, within=w_expand)] for b_ in g_.blocks.values()}
+        cfg.run_automaton(f0, (0, None), lib.inlined_step(prog, fstep, lambda g_: w_expand(g_) and g_.id != f0.id, on_return=fret), edge=fedge)
         ck.ob("C05-R1", "%s/content-length-on-every-sending-path" % name, not unframed, unframed[0].loc if unframed else f0.loc, f0,
               "asyncWrite is reached only after writeHeader<ContentLength>" if not unframed else
               "asyncWrite at line %s can be reached on a path that wrote no Content-Length: the receiver cannot tell where the body ends" % unframed[0].get("l"))
